@@ -2813,22 +2813,7 @@ func (rl *clientConnReadLoop) processData(f *DataFrame) error {
 		// by the peer? Tough without accumulating too much state.
 
 		// But at least return their flow control:
-		if f.Length > 0 {
-			cc.mu.Lock()
-			ok := cc.inflow.take(f.Length)
-			connAdd := cc.inflow.add(int(f.Length))
-			cc.mu.Unlock()
-			if !ok {
-				return ConnectionError(ErrCodeFlowControl)
-			}
-			if connAdd > 0 {
-				cc.wmu.Lock()
-				cc.fr.WriteWindowUpdate(0, uint32(connAdd))
-				cc.bw.Flush()
-				cc.wmu.Unlock()
-			}
-		}
-		return nil
+		return rl.discardData(f)
 	}
 	if cs.readClosed {
 		cc.logf("protocol error: received DATA after END_STREAM")
@@ -2836,7 +2821,7 @@ func (rl *clientConnReadLoop) processData(f *DataFrame) error {
 			StreamID: f.StreamID,
 			Code:     ErrCodeProtocol,
 		})
-		return nil
+		return rl.discardData(f)
 	}
 	if !cs.pastHeaders {
 		cc.logf("protocol error: received DATA before a HEADERS frame")
@@ -2844,7 +2829,7 @@ func (rl *clientConnReadLoop) processData(f *DataFrame) error {
 			StreamID: f.StreamID,
 			Code:     ErrCodeProtocol,
 		})
-		return nil
+		return rl.discardData(f)
 	}
 	if f.Length > 0 {
 		if cs.isHead && len(data) > 0 {
@@ -2853,7 +2838,7 @@ func (rl *clientConnReadLoop) processData(f *DataFrame) error {
 				StreamID: f.StreamID,
 				Code:     ErrCodeProtocol,
 			})
-			return nil
+			return rl.discardData(f)
 		}
 		// Check connection-level flow control.
 		cc.mu.Lock()
@@ -2906,6 +2891,32 @@ func (rl *clientConnReadLoop) processData(f *DataFrame) error {
 
 	if f.StreamEnded() {
 		rl.endStream(cs)
+	}
+	return nil
+}
+
+// discardData accounts for a DATA frame that is dropped without reaching a
+// response body. The peer has counted the whole frame against the
+// connection-level window, so it is taken from ours and handed straight back;
+// otherwise the two ends' windows drift apart for good (RFC 9113 section 6.9:
+// a receiver must account for a flow-controlled frame even if it is in error).
+func (rl *clientConnReadLoop) discardData(f *DataFrame) error {
+	if f.Length == 0 {
+		return nil
+	}
+	cc := rl.cc
+	cc.mu.Lock()
+	ok := cc.inflow.take(f.Length)
+	connAdd := cc.inflow.add(int(f.Length))
+	cc.mu.Unlock()
+	if !ok {
+		return ConnectionError(ErrCodeFlowControl)
+	}
+	if connAdd > 0 {
+		cc.wmu.Lock()
+		cc.fr.WriteWindowUpdate(0, uint32(connAdd))
+		cc.bw.Flush()
+		cc.wmu.Unlock()
 	}
 	return nil
 }
